@@ -20,6 +20,7 @@ import re
 
 import gen
 import mslcorr
+import mslgen
 import mslprobe
 import mslprogs
 import mslread
@@ -249,7 +250,9 @@ def queue_program(ctx, enums, runner, name, r, setnames, mode, rt, n_inputs, tag
             out.append({"name": name, "ep": ep["Name"], "oof": base_plan.why, "tag": tag, "benign": True})
             continue
         rng = ctx.rng.fork("inputs/%s/%s" % (name, ep["Name"]))
-        inputs = [base_plan.make_input(rng.fork(str(i)), mode=mode, rt_len=rt, k=i % 3) for i in range(n_inputs)]
+        modes = mode if isinstance(mode, (list, tuple)) else [mode]
+        rts = rt if isinstance(rt, (list, tuple)) else [rt]
+        inputs = [base_plan.make_input(rng.fork(str(i)), mode=modes[i % len(modes)], rt_len=rts[i % len(rts)], k=i % 3) for i in range(n_inputs)]
         ir_tickets = None
         if hostile_ref is None:
             ir_tickets = [runner.ir(base_plan.ir_request(inp, FUEL)) for inp in inputs]
@@ -465,12 +468,14 @@ def run(ctx):
                 ctx.cov["missing_entries_error"] = str(e)[:300]
 
     lap("coq_proof_step")
-    irrun = ocamlbuild.build("irrun")
-    mslrun = ocamlbuild.build("mslrun")
-    lap("extract_tools")
+    # the two interpreters are extracted and compiled side by side, while naga compiles the programs
+    from concurrent.futures import ThreadPoolExecutor
+    pool = ThreadPoolExecutor(2)
+    fut_ir = pool.submit(ocamlbuild.build, "irrun")
+    fut_msl = pool.submit(ocamlbuild.build, "mslrun")
     enums = mslcorr.Enums(tools)
     workers = max(2, min(8, vcheck.NCPU // 2))
-    runner = Runner(irrun, mslrun, workers)
+    runner = Runner(None, None, workers)
 
     # ---- probes on the boundary pool (search for the failing operator when a tie breaks; re-derives the refuted entries)
     all_probes = [p for p in mslprobe.all_probes() if not p[0].startswith(("land_", "lor_"))]
@@ -537,7 +542,13 @@ def run(ctx):
     # ---- bounds-check policies with hostile indices (C15): the policy written out in WGSL is the reference
     pol_cases = queue_policies(ctx, tools, enums, runner, srcs)
 
+    # ---- generated programs (lib/wgslgen.py through lib/mslgen.py)
+    gen_cases, gen_asts = queue_generated(ctx, tools, enums, runner, srcs)
+
     lap("compile_and_queue")
+    runner.irrun, runner.mslrun = fut_ir.result(), fut_msl.result()
+    pool.shutdown()
+    lap("extract_tools_wait")
     runner.run()
     lap("interpreters")
 
@@ -546,6 +557,9 @@ def run(ctx):
     pstats = {"runs": 0, "compared": 0, "disagreements": 0, "out_of_fragment": 0, "ir_undefined": 0, "msl_rejects": 0,
               "intentional_meaning_change": 0, "layout_members_checked": 0, "distinct": set(), "oof_reasons": {}, "ir_fail_reasons": {}}
     judge_policies(ctx, runner, pol_cases, srcs, pstats)
+    lap("judge")
+    gstats = judge_generated(ctx, tools, enums, runner, gen_cases, gen_asts, srcs)
+    lap("judge_generated")
 
     ctx.cov["probe"] = {"probe_programs": len(probes), "of_total": len(all_probes), "operand_tuples_compared": n_eval,
                         "table_entries": len(all_probes)}
@@ -560,16 +574,17 @@ def run(ctx):
     ctx.cov["bounds_policies"] = {"runs": pstats["runs"], "compared": pstats["compared"], "disagreements": pstats["disagreements"],
                                   "programs": len(mslprogs.POLICY), "out_of_fragment": pstats["out_of_fragment"],
                                   "inputs_undefined_in_reference": pstats["ir_undefined"]}
-    lap("judge")
+    ctx.cov["generated_programs"] = {k: v for k, v in gstats.items() if k != "distinct"}
     ctx.cov["phase_seconds"] = T
-    ctx.cov["programs"] = nprog + ncorp + len(mslprogs.POLICY)
-    ctx.cov["disagreements_checked"] = stats["disagreements"] + pstats["disagreements"]
-    ctx.cov["evaluations"] = n_eval + stats["runs"] + pstats["runs"]
-    ctx.cov["distinct_nontrivial"] = n_distinct + len(stats["distinct"]) + len(pstats["distinct"])
-    ctx.cov["traces_validated_against_impl"] = stats["compared"] + pstats["compared"] + n_eval
+    ctx.cov["programs"] = nprog + ncorp + len(mslprogs.POLICY) + gstats["programs"]
+    ctx.cov["disagreements_checked"] = stats["disagreements"] + pstats["disagreements"] + gstats["disagreements"]
+    ctx.cov["evaluations"] = n_eval + stats["runs"] + pstats["runs"] + gstats["runs"]
+    ctx.cov["distinct_nontrivial"] = n_distinct + len(stats["distinct"]) + len(pstats["distinct"]) + len(gstats["distinct"])
+    ctx.cov["traces_validated_against_impl"] = stats["compared"] + pstats["compared"] + n_eval + gstats["agree"]
     ctx.cov["rule"] = ("probe: (operator, kind, shape) x operand tuples from the 32-bit boundary pool, distinct by (probe, operands); "
                        "programs: (program, entry point, option set, generated buffer contents), distinct by those, non-trivial = both "
-                       "interpreters ran to completion and final storage buffers were compared; policies: the same with hostile indices")
+                       "interpreters ran to completion and final storage buffers were compared; policies: the same with hostile indices; "
+                       "generated: (wgslgen program, option set, generated buffer contents) counted the same way")
     if not ctx.cov["samples"]:
         ctx.sample({"probe": probes[0][0], "program": mslprobe.program(probes[0][1], probes[0][2])[:300]})
     if broken and not ctx.violations and not ctx.known_hits:
@@ -580,6 +595,133 @@ def run(ctx):
         ctx.violation(broken, found_input=False, broken=broken, files={"log.txt": (gen_error or log)[-6000:]})
     elif broken:
         ctx.cov["broken_tie"] = broken
+
+
+# ------------------------------------------------------------------ generated programs
+
+def queue_generated(ctx, tools, enums, runner, srcs):
+    """N typed random programs (lib/wgslgen.py, kept clear of the recorded findings by lib/mslgen.py), compiled under
+    the default option set and one other (quick; rotating with program index and seed) or all of them (thorough),
+    queued exactly like the hand-written programs: irrun on the IR vs mslrun on the parsed MSL, generated inputs."""
+    n = ctx.scale(GEN_QUICK, GEN_THOROUGH)
+    progs = mslgen.gen_programs(ctx.rng.fork("generated"), n)
+    setnames_all = list(mslcorr.OPTSETS)
+    others = [s for s in setnames_all if s != "default"]
+    sets_of = {}
+    jobs = []
+    for k, (name, ast, src) in enumerate(progs):
+        sets_of[name] = setnames_all if ctx.thorough else ["default", others[(k + ctx.seed) % len(others)]]
+        srcs[name] = src
+        jobs.append({"id": name, "src": src, "want": ["ir"], "data": {"optsets": [mslcorr.OPTSETS[o] for o in sets_of[name]]}})
+    res = nagarun.parallel_batches(tools["msldrive"], "compile", jobs, per_job_timeout=30.0, chunk=16)
+    cases = []
+    for name, ast, src in progs:
+        r = res.get(name) or {}
+        if "ir" not in r:
+            cases.append({"name": name, "rejected": str(r.get("err") or r.get("panic") or r.get("crash") or r)[:200], "tag": "gen"})
+            continue
+        cases += queue_program(ctx, enums, runner, name, r, sets_of[name], ["finite", "pool", "small", "pool"], [3, 1, 4, 2],
+                               ctx.scale(2, 4), "gen")
+    return cases, {name: ast for name, ast, src in progs}
+
+
+GEN_QUICK = 60
+GEN_THOROUGH = 700
+
+
+def judge_generated(ctx, tools, enums, runner, cases, asts, srcs):
+    """agreement statistics; every disagreeing program is shrunk (lib/shrink.py) to a minimal program with the same
+    class of disagreement and reported under the key gen:<class>:<construct signature of the shrunk program>."""
+    import time
+    st = {"programs": len(asts), "rejected_by_naga": 0, "rejected_by_msl_backend": 0, "runs": 0, "agree": 0, "disagreements": 0,
+          "out_of_fragment": 0, "inputs_undefined_in_reference": 0, "intentional_meaning_change": 0, "layout_members_checked": 0,
+          "programs_inside_fragment": 0, "out_of_fragment_reasons": {}, "reference_fail_reasons": {}, "distinct": set(),
+          "disagreeing_programs": 0, "shrunk": 0, "not_shrunk_budget": 0}
+    inside = set()
+    seen_layout = set()
+    bad = {}              # program -> first disagreeing case (class, detail, case)
+    reported = set()
+
+    def oof(why):
+        st["out_of_fragment"] += 1
+        st["out_of_fragment_reasons"][why[:70]] = st["out_of_fragment_reasons"].get(why[:70], 0) + 1
+    for c in cases:
+        name = c["name"]
+        if "rejected" in c:
+            st["rejected_by_naga"] += 1       # acceptance of valid programs is C08's property
+            continue
+        if "mslerr" in c:
+            st["rejected_by_msl_backend"] += 1
+            continue
+        if "oof" in c:
+            oof(c["oof"])
+            continue
+        plan = c["plan"]
+        lk = (name, c["set"])
+        if lk not in seen_layout:
+            seen_layout.add(lk)
+            lay = runner.msl_res[c["lay"]]
+            if lay.get("ok"):
+                lbad, nchk = mslcorr.check_layout(plan.T, plan.ir, c["ast"], lay, plan, c["epf"])
+                st["layout_members_checked"] += nchk
+                if lbad:
+                    first = re.sub(r"\d+", "N", lbad[0].split(":", 1)[-1]).strip()
+                    key = "gen:layout:" + first[:60]
+                    if key not in reported:
+                        reported.add(key)
+                        ctx.violation("C++ layout of the emitted MSL structs differs from the IR layout in a generated program (options %s):\n%s"
+                                      % (c["set"], "\n".join(lbad[:8])), files={"input.wgsl": srcs[name], "emitted.msl": c["text"]}, key=key)
+        a = runner.ir_res[c["ir"]]
+        b = runner.msl_res[c["msl"]]
+        st["runs"] += 1
+        cls, detail = mslgen.classify(plan, c["set"], a, b, has_workgroup(plan))
+        if cls == "undefined":
+            st["inputs_undefined_in_reference"] += 1
+            st["reference_fail_reasons"][detail[:60]] = st["reference_fail_reasons"].get(detail[:60], 0) + 1
+        elif cls == "intentional":
+            st["intentional_meaning_change"] += 1
+        elif cls.startswith("oof"):
+            oof(detail)
+        elif cls == "agree":
+            st["agree"] += 1
+            inside.add(name)
+            st["distinct"].add((name, c["set"], json.dumps(c["inp"]["globals"], sort_keys=True)[:4000]))
+            if st["agree"] == 1:
+                ctx.sample({"generated_program": srcs[name][:400], "options": c["set"], "agree_on_buffers":
+                            [plan.ir["GlobalVariables"][h]["Name"] for h in plan.storage_handles()]})
+        else:
+            st["disagreements"] += 1
+            inside.add(name)
+            bad.setdefault(name, (cls, detail, c))
+    st["programs_inside_fragment"] = len(inside)
+    st["disagreeing_programs"] = len(bad)
+    if bad:
+        single = mslgen.Single(tools, enums, runner.irrun, runner.mslrun, ctx.scale(30000, 120000))
+        deadline = time.time() + ctx.scale(75, 900)
+        for name, (cls, detail, c) in sorted(bad.items(), key=lambda x: len(srcs[x[0]])):
+            plan = c["plan"]
+            files = {"original.wgsl": srcs[name], "emitted.msl": c["text"], "input.json": json.dumps(c["inp"])}
+            if time.time() < deadline:
+                small, info = mslgen.shrink_case(single, asts[name], c["set"], mslgen.input_by_name(plan, c["inp"]), c["inp"]["k"],
+                                                 c["inp"]["rt_len"], cls, budget=ctx.scale(120, 600))
+                st["shrunk"] += 1
+                key = mslgen.key_of(cls, small)
+                files.update({"input.wgsl": info.get("src", ""), "emitted.msl": info.get("msl", c["text"]), "original_emitted.msl": c["text"],
+                              "input.json": json.dumps(info.get("input", c["inp"]))})
+                detail = info.get("detail") or detail
+            else:
+                st["not_shrunk_budget"] += 1
+                key = mslgen.key_of(cls + ":unshrunk", asts[name])
+                files["input.wgsl"] = srcs[name]
+            if key in reported:
+                continue
+            reported.add(key)
+            what = ("final buffer contents differ between the IR semantics and the emitted MSL" if cls == "differ" else
+                    "the emitted MSL fails (%s) where WGSL defines the result" % cls)
+            ctx.violation("generated program (options %s): %s\n%s\n(input.wgsl is the shrunk program, original.wgsl the generated one)"
+                          % (c["set"], what, detail), files=files, key=key)
+    st["out_of_fragment_reasons"] = dict(sorted(st["out_of_fragment_reasons"].items(), key=lambda x: -x[1])[:12])
+    return st
 
 
 # repository shaders with compute entry points inside the fragment that run quickly (quick tier; thorough runs all)
